@@ -102,6 +102,8 @@ def cvode_passes(tier):
 
 
 def classify(msg):
+    if "configured with other" in msg:
+        return "integrator-misconfigured"
     if "second Solve" in msg:
         return "second-solve"
     if "integrated" in msg and "never failed" in msg:
